@@ -531,6 +531,10 @@ class Exec:
 
             def callback(study_, ft):
                 t = self.slots[slot][1]
+                if 9999 in op["values"]:      # the objective RETURNED NaN: optimize records the trial as FAIL without values
+                    self.write_event({"a": "set_state", "t": t, "state": "FAIL", "values": sd.NONE_V},
+                                     {"k": "ok", "v": True}, "Study.optimize:tell")
+                    return                    # (the object handed to callbacks carries a transient warning attribute)
                 self.write_event({"a": "set_state", "t": t, "state": "COMPLETE", "values": op["values"]},
                                  {"k": "ok", "v": True}, "Study.optimize:tell")
                 self.hold(ft, "trial", "optimize.callback", {"t": t})
@@ -923,8 +927,10 @@ def random_session(r, n_ops=26):
                 n_t += 1
             inner = reads(2) + inner_ops(slot, s) + constraint(slot)
             slots[slot]["live"] = False
-            ops.append({"a": "S.optimize", "s": s, "slot": slot, "inner": inner,
-                        "values": [r.choice(sd.FINITE) for _ in range(len(studies[s - 1]))]})
+            vals = [r.choice(sd.FINITE) for _ in range(len(studies[s - 1]))]
+            if r.random() < 0.25:
+                vals[r.randrange(len(vals))] = 9999          # NaN: an unstorable return value (warning path of tell)
+            ops.append({"a": "S.optimize", "s": s, "slot": slot, "inner": inner, "values": vals})
         elif x < 0.86:
             # another worker, straight on the storage
             ops.append(r.choice([
